@@ -337,6 +337,15 @@ def part_b(ctx, vh, n, n_srv):
             continue
         # the editor opens (re-analyses) the sibling conftest after the scan
         vh.call(op="analyze", db=db, path=os.path.join(root, "sib/conftest.py"), text=files["sib/conftest.py"])
+        if i % 2 == 0:
+            # ... and the modules of the in-workspace plugin are opened, closed and opened again (texts unchanged)
+            for rel_, txt_ in files.items():
+                if rel_.startswith("editables/") and rel_.endswith(".py") and not rel_.endswith("conftest.py"):
+                    p_ = os.path.join(root, rel_)
+                    vh.call(op="analyze", db=db, path=p_, text=txt_)
+                    vh.call(op="close", db=db, path=p_)
+                    vh.call(op="analyze", db=db, path=p_, text=txt_)
+            ctx.nontrivial(("b", "plugin_modules_reopened"))
         raw = vh.call(op="raw", db=db)
         probe = os.path.join(root, "test_probe.py")
         pm = FileModel(files["test_probe.py"], probe)
